@@ -3,20 +3,28 @@ sys.path.insert(0, '/verif')
 from pyvc.verifier import Engine
 from pyvc import run
 eng = Engine().load()
-pat = sys.argv[1] if len(sys.argv) > 1 else ""
+pats = [a for a in sys.argv[1:] if not a.startswith("-")]
+results = []
 for key, c in eng.contracts.by_key.items():
-    if pat and pat not in f"{key[0]}:{key[1]}[{key[2]}]":
+    name = f"{key[0]}:{key[1]}[{key[2]}]"
+    if pats and not any(p in name for p in pats):
         continue
     res = run.generate(eng, c)
-    run.solve_all(eng, res)
-    print("==", key, "paths", res.paths, "gen %.2fs solve %.2fs" % (res.gen_time, res.solve_time))
+    results.append(res)
+wall = run.solve_parallel(eng, results, jobs=14)
+tot = 0
+for res in results:
+    print("==", res.key, "paths", res.paths, "gen %.2fs solve %.2fs" % (res.gen_time, res.solve_time))
     if res.unsupported: print("   UNSUPPORTED:", res.unsupported)
     if res.error: print("   ERROR:", res.error)
     if res.anchor_missing: print("   ANCHOR MISSING")
-    print("   covers", res.covers)
+    if not all(ok for _, ok in res.covers): print("   covers", res.covers)
     for o in res.obligations:
-        print("   %-12s %6.2fs %s" % (o.verdict, o.time, o.name))
-        if o.verdict != "discharged" and "-v" in sys.argv:
-            print("      goal:", o.goal)
-            for h in o.hyps: print("      hyp:", h)
-            if o.model is not None: print("      model:", o.model)
+        tot += 1
+        if o.verdict != "discharged" or "-a" in sys.argv:
+            print("   %-12s %6.2fs %s %s" % (o.verdict, o.time, o.name, (o.reason or "")[:200]))
+            if "-v" in sys.argv:
+                print("      goal:", o.goal)
+                for h in o.hyps: print("      hyp:", h)
+                if getattr(o, "model_summary", None): print("      model:", o.model_summary)
+print("obligations", tot, "wall %.1fs" % wall)
